@@ -327,7 +327,7 @@ def lifecycle(ctx, msel, SEL, world):
         match = [a for a, v, _ in p.path if a[0] in ("streq", "eq") and v and "dashboard_string" in str(a)]
         chooser = next((c for c, l in p.choices if l == "chooser selection"), None)
         n4 += 1
-        if dash_none is False and match:
+        if match and dash_none is not True:  # (a string that equals a registered key is not None, whether or not the code asked)
             want = None
             for k, v in ms.items.items():
                 if any(repr(k)[1:] in str(a) for a in match):
@@ -340,7 +340,7 @@ def lifecycle(ctx, msel, SEL, world):
             ctx.require(ok, "C14.O4", "otherwise the chooser selection", f"the dashboard string is {'absent' if dash_none else 'not a registered key'} but the active mode {active!r} is not the chooser's selection (choice {chooser} of {opts}; path {[(a[0], v) for a, v, _ in p.path]})", site=site("start"), key="C14.O4|chooser")
         ons = [e for e in p.interp.hooks.events if e[0] == "on_enable"]
         ctx.require(len(ons) == (1 if active is not None else 0) and (not ons or ons[0][1] is active), "C14.O4", "on_enable delivered once, to the active mode", f"on_enable is delivered {len(ons)} times / to a mode that is not the active one", site=site("start"), key="C14.O4|enable")
-    ctx.floor("selection paths", n4, 6)
+    ctx.floor("selection paths", n4, 5)  # 2 registered keys matched + 3 chooser outcomes (mode 0, mode 1, nothing)
 
     # ---- M1 closure over start / periodic / disable
     def actions(w, g):
